@@ -932,25 +932,24 @@ def falsifier_stage(ctx):
     kinds = ["relaxation", "dephasing", "depolarizing", "effective", "leakage", "mixed"]
     det = [c for c in corpus_cases() if c.get("kind") == "det"]
     stat = [c for c in corpus_cases() if c.get("kind") == "stat"]
-    ndet = ctx.n(18, 180)
+    ndet = ctx.n(18, 100)
     for i in range(ndet):
         det.append(gen_det_case(ctx.rng, kinds[i % 6], [2, 3, 2, 2, 3, 4][i % 6] if ctx.thorough() else [2, 3, 2][i % 3],
                                 jump=(i % 4 != 0)))
     # Lindblad noise TOGETHER with badly prepared atoms (state_prep_error > 0): fill_results pads the state to the
     # full register; 3-5 atoms, 1-2 bad, with and without qubit reordering; two levels only (qutrit + bad atom is F-14)
     kinds2 = ["relaxation", "dephasing", "depolarizing", "effective", "mixed"]
-    for i in range(ctx.n(8, 60)):
+    for i in range(ctx.n(8, 40)):
         nt = [3, 4, 5, 4][i % 4]
         det.append(gen_det_case(ctx.rng, kinds2[i % 5], nt, jump=(i % 3 != 0), bad=gen_bad_mask(ctx.rng, nt),
                                 reorder=(i % 2 == 1)))
-    for i in range(ctx.n(6, 40)):      # jump operators with non-diagonal L^dagger L, 2 and 3 levels, forced jumps
+    for i in range(ctx.n(6, 30)):      # jump operators with non-diagonal L^dagger L, 2 and 3 levels, forced jumps
         det.append(gen_det_case(ctx.rng, "offdiag", [2, 3, 2][i % 3], jump=True, d=[2, 3][i % 2]))
     for i in range(ctx.n(2, 10)):      # reordering without bad atoms
         det.append(gen_det_case(ctx.rng, kinds2[i % 5], [3, 4][i % 2], jump=True, reorder=True))
     if ctx.thorough():
-        plan = [("relaxation", 2, 2000), ("dephasing", 2, 2000), ("depolarizing", 2, 2000), ("effective", 2, 2000),
-                ("leakage", 2, 2000), ("mixed", 2, 500), ("mixed", 3, 300), ("leakage", 3, 300), ("relaxation", 4, 300),
-                ("effective", 3, 300)]
+        plan = [("relaxation", 2, 1200), ("dephasing", 2, 1200), ("depolarizing", 2, 1200), ("effective", 2, 1200),
+                ("leakage", 2, 1200), ("mixed", 2, 400), ("mixed", 3, 300), ("leakage", 3, 300), ("relaxation", 4, 300)]
     else:
         plan = [("mixed", 2, 300), ("leakage", 2, 300), ("effective", 3, 40)]
     for kind, n, M in plan:
@@ -976,7 +975,7 @@ def falsifier_stage(ctx):
     ctx.obligation("harness:scripted runs use the probed qubit ordering", nskip * 4 <= max(1, len(det)),
                    f"{nskip} of {len(det)} scripted trajectories gave no verdict", kind="harness")
     public = [c for c in corpus_cases() if c.get("kind") == "public-run"]
-    public += [gen_public_case(ctx.rng, ctx.n(300, 1500)) for _ in range(ctx.n(1, 3))]
+    public += [gen_public_case(ctx.rng, ctx.n(300, 1000)) for _ in range(ctx.n(1, 2))]
     public += [gen_public_case(ctx.rng, 12) for _ in range(ctx.n(2, 10))]     # cheap: the counting oracle
     ntests = sum(2 * c["n"] for c in stat) + sum(2 * c["n"] for c in public)
     delta = FWER / max(1, ntests)
@@ -1009,7 +1008,7 @@ def run(ctx):
     init_noise_stage(ctx, ctx.n(20, 200))
     jump_stage(ctx, ctx.n(16, 160))
     split_stage(ctx, ctx.n(40, 400))
-    precision_stage(ctx, ctx.n(30, 300))
+    precision_stage(ctx, ctx.n(30, 200))
     falsifier_stage(ctx)
     ctx.rule = ("(a) init_lindblad_noise: 1-5 Gaussian-integer / quarter-integer 2x2 jump operators, exact. (b) "
                 "do_random_quantum_jump: random MPS (2-3 sites, bond 1-2, norm 0.5-1), 1-3 random complex operators, "
